@@ -3,8 +3,10 @@
 // state mutators SlashEscrow, TransferFromCommon, AddRewards, governance deposit moves) on the mock
 // application state the repository's own tests use, with generated operation histories, dumps the
 // full real ledger after every operation and lets the Lean ledger model (`om_ledger`)
-//   (i)  compare it account by account with the model's ledger, and
-//   (ii) evaluate the conservation invariant and the supply rule on the dumped real state,
+//
+//	(i)  compare it account by account with the model's ledger, and
+//	(ii) evaluate the conservation invariant and the supply rule on the dumped real state,
+//
 // properties C05 (and the handler part of C15: reclaim, debonding completion, slashing).
 package main
 
@@ -30,12 +32,12 @@ import (
 	"github.com/oasisprotocol/oasis-core/go/common/node"
 	"github.com/oasisprotocol/oasis-core/go/common/quantity"
 	"github.com/oasisprotocol/oasis-core/go/consensus/api/transaction"
-	consensusGenesis "github.com/oasisprotocol/oasis-core/go/consensus/genesis"
 	abciAPI "github.com/oasisprotocol/oasis-core/go/consensus/cometbft/api"
 	registryState "github.com/oasisprotocol/oasis-core/go/consensus/cometbft/apps/registry/state"
 	stakingApp "github.com/oasisprotocol/oasis-core/go/consensus/cometbft/apps/staking"
 	stakingState "github.com/oasisprotocol/oasis-core/go/consensus/cometbft/apps/staking/state"
 	tmcrypto "github.com/oasisprotocol/oasis-core/go/consensus/cometbft/crypto"
+	consensusGenesis "github.com/oasisprotocol/oasis-core/go/consensus/genesis"
 	genesis "github.com/oasisprotocol/oasis-core/go/genesis/api"
 	registry "github.com/oasisprotocol/oasis-core/go/registry/api"
 	staking "github.com/oasisprotocol/oasis-core/go/staking/api"
@@ -111,14 +113,16 @@ var theCast = func() *cast {
 // ---------------------------------------------------------------- world: the real application on the mock state
 
 type world struct {
-	cfg      *abciAPI.MockApplicationStateConfig
-	appState abciAPI.MockApplicationState
-	app      *stakingApp.Application
-	gen      *staking.Genesis
-	inited   bool
-	notes    map[string]int
-	fatal    string // text of the last BeginBlock/EndBlock/InitChain error
-	c08      string // first "failed transaction changed state" observation (spec c08)
+	cfg       *abciAPI.MockApplicationStateConfig
+	appState  abciAPI.MockApplicationState
+	app       *stakingApp.Application
+	gen       *staking.Genesis
+	inited    bool
+	notes     map[string]int
+	fatal     string // text of the last BeginBlock/EndBlock/InitChain error
+	directErr string // text of the last error of a direct state mover
+	tfcFatal  string // c10: TransferFromCommon(escrow=true) returned an error (fatal for its only caller, roothash reward distribution)
+	c08       string // first "failed transaction changed state" observation (spec c08)
 }
 
 // spec selects which property the run reports on: c05 (ledger conservation; model + invariant),
@@ -603,6 +607,9 @@ func (w *world) direct(f []string) string {
 		amt := qq(f[1])
 		err = st.DiscardGovernanceDeposit(ctx, &amt)
 	}
+	if err != nil {
+		w.directErr = err.Error()
+	}
 	return fatalOr(err)
 }
 
@@ -793,6 +800,11 @@ func (w *world) exec(op string) (line string, dump bool, stop bool) {
 	case "slash", "tfc", "addrewards", "govdep", "govref", "govdisc":
 		n := map[string]int{"slash": 3, "tfc": 4, "addrewards": 4, "govdep": 3, "govref": 3, "govdisc": 2}[f[0]]
 		r := w.direct(f)
+		if spec == "c10" && f[0] == "tfc" && f[3] == "1" && r != "ok" && w.tfcFatal == "" {
+			// the only caller (roothash reward distribution, EndBlock path) propagates this error
+			w.tfcFatal = w.directErr
+			return strings.Join(f[:n], " ") + " " + r, false, true
+		}
 		return strings.Join(f[:n], " ") + " " + r, r != "fatal", r == "fatal"
 	}
 	panic("unknown op " + op)
@@ -803,13 +815,14 @@ func (w *world) exec(op string) (line string, dump bool, stop bool) {
 var globalNotes = map[string]int{}
 
 // set by runImpl for the model-free specs
-var lastC08, lastFatal, lastFatalPhase string
+var lastC08, lastFatal, lastFatalPhase, lastTfcFatal string
 
 func runImpl(ops []string) (lines []string, inTree string, panicked string) {
 	w := newWorld()
-	lastC08, lastFatal, lastFatalPhase = "", "", ""
+	lastC08, lastFatal, lastFatalPhase, lastTfcFatal = "", "", "", ""
 	defer func() {
 		lastC08 = w.c08
+		lastTfcFatal = w.tfcFatal
 		if lastFatal == "" && w.fatal != "" && lastFatalPhase != "" {
 			lastFatal = w.fatal
 		}
@@ -885,6 +898,13 @@ func check(ops []string) (string, []string) {
 		if p != "" {
 			return "C10 c10-fatal:panic:" + slug(p) + " — implementation panicked: " + p, lines
 		}
+		if lastTfcFatal != "" {
+			sg := "c10-fatal:tfc:" + slug(lastTfcFatal)
+			if strings.Contains(lastTfcFatal, "failed to deposit to escrow") && strings.Contains(lastTfcFatal, "invalid argument") {
+				sg = "c10-fatal:tfc:slashed-pool-full-commission"
+			}
+			return "C10 " + sg + " — TransferFromCommon(escrow=true) returned an error (fatal in roothash reward distribution): " + lastTfcFatal, lines
+		}
 		if lastFatalPhase != "" {
 			return fmt.Sprintf("C10 c10-fatal:%s:%s — %s returned an error: %s", lastFatalPhase, slug(lastFatal), lastFatalPhase, lastFatal), lines
 		}
@@ -942,13 +962,14 @@ func signature2(d string) string {
 // ---------------------------------------------------------------- generator (live: it looks at the real state)
 
 type gen struct {
+	fullCom []int // entities whose commission rate is 100%
 	gasTok  string
 	gascost int
-	r   *hlib.Rng
-	w   *world
-	ops []string
-	res *hlib.Result
-	mtb int64
+	r       *hlib.Rng
+	w       *world
+	ops     []string
+	res     *hlib.Result
+	mtb     int64
 }
 
 // observe counts what happened across a block-level op from the dumps before and after it.
@@ -1222,6 +1243,9 @@ func genCase(r *hlib.Rng, nblocks int, res *hlib.Result) []string {
 				a.com = []string{strconv.Itoa(int(mincom)), "100000"}[r.Intn(2)]
 			}
 		}
+		if a.com == "100000" || (a.com == "-" && mincom == 100000) {
+			g.fullCom = append(g.fullCom, i)
+		}
 		accs[i] = a
 	}
 	// active delegations
@@ -1294,7 +1318,9 @@ func genCase(r *hlib.Rng, nblocks int, res *hlib.Result) []string {
 	for k := range dels {
 		dkeys = append(dkeys, k)
 	}
-	sort.Slice(dkeys, func(i, j int) bool { return dkeys[i][0] < dkeys[j][0] || (dkeys[i][0] == dkeys[j][0] && dkeys[i][1] < dkeys[j][1]) })
+	sort.Slice(dkeys, func(i, j int) bool {
+		return dkeys[i][0] < dkeys[j][0] || (dkeys[i][0] == dkeys[j][0] && dkeys[i][1] < dkeys[j][1])
+	})
 	for _, k := range dkeys {
 		g.emit(fmt.Sprintf("del %d %d %s", k[0], k[1], dels[k]))
 	}
@@ -1348,6 +1374,15 @@ func genCase(r *hlib.Rng, nblocks int, res *hlib.Result) []string {
 		if g.emit(fmt.Sprintf("begin %s %d %s %s", prop, nEl, list(voters), list(ev))) {
 			return g.ops
 		}
+		if spec == "c10" && len(g.fullCom) > 0 && r.Chance(1, 25) {
+			// a validator entity with 100% commission whose escrow is wiped out by slashing, then
+			// rewarded through TransferFromCommon (roothash reward distribution)
+			e := g.fullCom[r.Intn(len(g.fullCom))]
+			if g.emit(fmt.Sprintf("slash %d %s", e, new(big.Int).Lsh(big.NewInt(1), 255))) ||
+				g.emit(fmt.Sprintf("tfc %d %d 1", e, 1+r.Intn(1000))) {
+				return g.ops
+			}
+		}
 		for k := 0; k < r.Intn(7); k++ {
 			if r.Chance(1, 7) {
 				var stop bool
@@ -1400,12 +1435,22 @@ func main() {
 	res.Rule = "generated block histories on the real staking application (mock application state): genesis with random parameters (min balances, fee-split weights, reward schedule and factors, signing threshold, commission rates incl. 0 and 100%, slashing with/without freeze, disabled transfers/delegation), 6 entities + common-pool and burn address as targets, 5 validators (one entity with two nodes); per block: optional epoch change, BeginBlock with proposer / vote participation / evidence, up to 6 transactions (transfer incl. self and to burn/reserved address, burn, add escrow incl. self-delegation, reclaim, allow, withdraw; valid and invalid nonces, zero/huge/boundary amounts, fees) or direct state movers (SlashEscrow, TransferFromCommon, AddRewards, governance deposit/refund/discard), EndBlock. A history is non-trivial when at least one value-moving operation succeeded; distinct by op list"
 	res.Explanation = "after every operation the full real ledger is dumped; the Lean model compares it account by account (DIVERGE) and evaluates the conservation invariant + supply rule on the real dump (SPEC); the repository's own sanity helpers are run at block boundaries as a second opinion (INTREE)"
 
+	seenSig := map[string]bool{}
 	runOne := func(ops []string, caseSeed uint64, minimize bool) {
 		d, lines := check(ops)
 		res.Cases++
 		res.Ops += len(lines)
 		if d == "" {
 			return
+		}
+		if spec != "c05" {
+			// model-free specs: one failure per signature (a listed finding must not use up the budget)
+			if sg := signature2(d); seenSig[sg] {
+				res.Count("repeat:" + sg)
+				return
+			} else {
+				seenSig[sg] = true
+			}
 		}
 		min := ops
 		if minimize {
